@@ -1,7 +1,15 @@
 package main
 
-import "fmt"
+import (
+	"fmt"
+
+	"verif/harness/internal/ctlsim"
+)
 
 func runOtherWorker(engine string, wa workerArgs) error {
+	switch engine {
+	case "ctlsim":
+		return ctlsim.RunWorker(wa.prop, wa.seed, wa.worker, wa.cases, wa.out)
+	}
 	return fmt.Errorf("unknown engine %q", engine)
 }
